@@ -202,8 +202,8 @@ func c15DescribeEval(e *Env, d *dict.Dict, c c15Describe) {
 		args = []string{"info", "attr", "describe", "-t", c.Target, "-r", c.Root}
 	} else {
 		sym := c.Target
-		if sym != "" && sym[0] >= '0' && sym[0] <= '9' {
-			sym = "_" + sym
+		if sym != "" {
+			sym = "_" + sym // `_` introduces a symbol: needed for numeric symbols and for long names starting with a note letter
 		}
 		args = []string{"info", "chord", "describe", "-t", c.Root + sym}
 	}
